@@ -412,7 +412,7 @@ def plan(tier):
 def run_shard(ctx, spec):
     quick = ctx.tier == "quick"
     nmax = 120 if quick else 500
-    ctx.explore("pinhole", pinhole_cases(nmax), 70 if quick else 1300)
-    ctx.explore("slit", slit_cases(nmax), 70 if quick else 1300)
-    ctx.explore("pixels", pixel_cases(), 40 if quick else 900)
-    ctx.explore("linear", linear_cases(), 12 if quick else 250)
+    ctx.explore("pinhole", pinhole_cases(nmax), 220 if quick else 1600)
+    ctx.explore("slit", slit_cases(nmax), 220 if quick else 1600)
+    ctx.explore("pixels", pixel_cases(), 100 if quick else 1000)
+    ctx.explore("linear", linear_cases(), 30 if quick else 300)
